@@ -182,6 +182,50 @@ fn run_cfg(cx: &mut CaseCx, case: &Value) {
   cx.sample(json!({"t": t, "message_len": ml, "coins_len": rl, "shares": k, "share_len": shares[0].to_bytes().len()}));
 }
 
+
+/// shares at crafted evaluation points (129-bit field: x and x + 2^128 are different points)
+fn run_crafted_points(cx: &mut CaseCx, case: &Value) {
+  let t = case["t"].as_u64().unwrap() as u32;
+  let m = prbytes(31, 32);
+  let r = prbytes(32, 32);
+  let pts = ["7", "340282366920938463463374607431768211463", "1", "340282366920938463463374607431768211457", "340282366920938463463374607431768223906", "12450", "18446744073709551616", "340282366920938463463374607431768211456"];
+  let mut shares: Vec<Share> = vec![];
+  let mut xs: Vec<BigUint> = vec![];
+  for p in pts.iter() {
+    apply_answer(&Ans::Craft(p.to_string()));
+    let s = share_of(&Commune::new(t, m.clone(), r.clone(), None));
+    getrandom::verif::clear_script();
+    if let Ok(s) = s {
+      if let Some(x) = rm::parse_adss(&s.to_bytes()).map(|p| p.s.x) {
+        if x.to_string() == *p {
+          shares.push(s);
+          xs.push(x);
+          continue;
+        }
+      }
+    }
+    cx.count("craft_miss", 1);
+  }
+  if shares.len() < t as usize + 1 {
+    cx.note("crafted entropy did not produce the intended points (sampler changed?): sub-check only counted");
+    return;
+  }
+  cx.count("crafted_shares", shares.len() as u64);
+  // every t-subset and every ordered pair-with-duplicate: distinct points (also those equal mod 2^128) recover
+  for_each_subset(shares.len(), t as usize, |sel| {
+    let sh: Vec<Share> = sel.iter().map(|&i| shares[i].clone()).collect();
+    cx.eval();
+    cx.count("states", 1);
+    cx.count("transitions", 1);
+    cx.nontrivial(fnv_str(&format!("{}|{:?}", t, sel)));
+    match rec(&sh) {
+      Ok(Ok(c)) if c.get_message() == m => cx.count("ok", 1),
+      other => cx.viol("C16/recover-failed", format!("t={} shares at the distinct points {:?} do not recover: {:?}", t, sel.iter().map(|&i| xs[i].to_string()).collect::<Vec<_>>(), other.map(|r| r.map(|_| ()))), json!({"t": t, "points": sel.iter().map(|&i| xs[i].to_string()).collect::<Vec<_>>()})),
+    }
+  });
+  cx.outcome("crafted points");
+}
+
 fn run_transcripts(cx: &mut CaseCx, case: &Value) {
   let t = case["t"].as_u64().unwrap() as u32;
   let m = prbytes(5, 32);
@@ -297,6 +341,13 @@ pub fn spec() -> PropSpec {
         },
         run: run_cfg,
         min_counts: &[("ok", 1000), ("err", 100), ("mixed_old_new_ok", 100), ("replay_identical", 50)],
+      },
+      Check {
+        name: "crafted-points",
+        rule: "E-env: share points scripted to 7, 7+2^128, 1, 1+2^128, p-1, 12450, 2^64, 2^128 (pairs equal modulo 2^128 are distinct field elements): every t-subset (t in 1..3) recovers",
+        gen: |_| (1..=3u64).map(|t| json!({"t": t})).collect(),
+        run: run_crafted_points,
+        min_counts: &[("ok", 50)],
       },
       Check {
         name: "transcripts",
